@@ -1238,6 +1238,8 @@ class PDFPageInterpreter:
                 ctm=mult_matrix(matrix, self.ctm),
             )
             self.device.end_figure(xobjid)
+            # the form's interpreter shares the device: give it the caller's CTM back
+            self.device.set_ctm(self.ctm)
         elif subtype is LITERAL_IMAGE and "Width" in xobj and "Height" in xobj:
             self.device.begin_figure(xobjid, (0, 0, 1, 1), MATRIX_IDENTITY)
             self.device.render_image(xobjid, xobj)
